@@ -443,7 +443,7 @@ pub fn run(args: &Args) -> i32 {
       cfg.bu_pre = true; cfg.bu_twice = true; cfg.bu_split = true; cfg.bu_then = true;
       groups.push(Group { enums: vec![pe(3, 1, 3)], depth: 5, shapes: false, gen_consumer_only: false, crashes: 0, inject: false, max_roots: Some(1), faulty: false, slice: None, families: false, staged: None, direct: false });
       let mut e = EnumCfg::structural(2, 2, if quick { 2 } else { 3 });
-      e.ocs = vec![OC::Equals, OC::IsZero, OC::Always, OC::PieEquals];
+      e.ocs = vec![OC::Equals, OC::IsZero, OC::Always, OC::PieEquals, OC::Near];
       e.read_rcs = vec![RC::Exact, RC::Exists, RC::Always];
       e.write_rcs = vec![RC::Exact, RC::Exists, RC::Always];
       e.write_decl = true;
